@@ -1011,6 +1011,11 @@ pub fn gen_c13(run: &mut Run, seed: u64, thorough: bool) {
             (c_sender.clone(), AuthSpec::None, "contract-sender-nobody"),
             (a_sender.clone(), AuthSpec::All, "account-sender-all"),
             (a_sender.clone(), AuthSpec::None, "account-sender-nobody"),
+            // the gateway's own address as sender is nobody special: it still has to authorise
+            (g.gwaddr.clone(), AuthSpec::None, "gateway-as-sender-nobody"),
+            (g.gwaddr.clone(), AuthSpec::exact(&[other.clone()]), "gateway-as-sender-other-addr"),
+            (g.owner.clone(), AuthSpec::None, "owner-as-sender-nobody"),
+            (g.operator.clone(), AuthSpec::exact(&[g.owner.clone()]), "operator-as-sender-owner-auth"),
         ];
         for (sender, auth, class) in modes {
             g.run.op(
